@@ -4,6 +4,10 @@
 // one: same result, or a failure reported through the documented channel - never an abort, a
 // wrong accept or an altered token.
 #include "lib.hpp"
+#include <sys/wait.h>
+#include <fcntl.h>
+#include <unistd.h>
+#include <functional>
 #include "world.hpp"
 #include <unistd.h>
 #include <dlfcn.h>
@@ -41,7 +45,10 @@ struct OpRes {
 // ---------------------------------------------------------------- generator
 static void oom_gen(Rng &r, Plan &p, Tier tier, uint64_t index)
 {
-	(void)index;
+	if (index == 0) {
+		p.cfg["parser_probe"] = Val((int64_t)1); // see jansson_probe()
+		return;
+	}
 	p.cfg["prov"] = Val((int64_t)(r.chance(1, 3) ? 1 : 0));
 	p.cfg["from"] = Val((int64_t)(tier == THOROUGH && r.chance(1, 3) ? 1 : 0)); // every request from k on fails
 	if (tier == THOROUGH && !p.C("from") && r.chance(1, 3))
@@ -158,7 +165,7 @@ static void oom_gen(Rng &r, Plan &p, Tier tier, uint64_t index)
 		if (r.chance(1, 3)) {
 			Step c("CCB");
 			c.set("c", 0);
-			c.set("mode", r.range(0, 2));
+			c.set("mode", r.range(0, 3));
 			push(c);
 		}
 		int nv = (int)r.range(1, 3);
@@ -269,6 +276,12 @@ static int oom_cb(jwt_t *jwt, jwt_config_t *config)
 	} else if (c->mode == 1) {
 		config->key = c->key;
 		config->alg = (jwt_alg_t)c->alg;
+	} else if (c->mode == 3) {
+		// an application that strips the time claims from the object it is handed (the API documentation promises
+		// that this does not change the verdict) and does not care whether that worked
+		jwt_claim_del(jwt, "exp");
+		jwt_claim_del(jwt, "nbf");
+		jwt_claim_del(jwt, "iss");
 	} else
 		return 1;
 	return 0;
@@ -596,7 +609,7 @@ static OpRes run_op(Scenario &sc, OomState &st, const Step &s, int64_t fail_at, 
 			return r;
 		}
 		OomCb *cb = &g_oomcb[(bld ? 0 : 2) + i];
-		cb->mode = (int)s.I("mode") % 3;
+		cb->mode = (int)s.I("mode") % 4;
 		int slot = bld ? st.bkey[i] : st.ckey[i];
 		cb->key = slot_item(st, slot < 0 ? 0 : slot);
 		cb->alg = sc.keys.count(slot < 0 ? 0 : slot) ? sc.keys[slot < 0 ? 0 : slot].alg : JWT_ALG_NONE;
@@ -783,9 +796,94 @@ static bool jansson_alone_reproduces_dump(const DumpRecord &dr)
 	return differs;
 }
 
+// ---------------------------------------------------------------- jansson parser probe (run 0 of the check)
+// The scenarios above keep their number tokens short. With a number of 16 or more characters in a token, jansson
+// 2.14's lexer does worse than lose a character when the growth of its token buffer fails: an assertion in
+// lex_unget_unsave() aborts the process, or the buffer is written out of bounds. That is reached through
+// jwt_checker_verify() with an application allocator, so it is a C17 finding; it cannot be repaired in libjwt.
+// Every attempt runs in a forked child, so that the worker survives; the same text is then handed to jansson alone.
+static int run_in_fork(const std::function<void()> &f)
+{
+	fflush(stdout);
+	fflush(stderr);
+	pid_t pid = fork();
+	if (pid == 0) {
+		int fd = open("/dev/null", O_WRONLY);
+		if (fd >= 0) {
+			dup2(fd, 2);
+			close(fd);
+		}
+		alarm(20);
+		f();
+		_exit(0);
+	}
+	int st = 0;
+	if (pid < 0 || waitpid(pid, &st, 0) < 0)
+		return 0;
+	return st;
+}
+
+static void jansson_probe(Ctx &ctx)
+{
+	// a number token of exactly 15 characters: the character after it is the 16th the lexer saves, the one that makes
+	// its 16-byte token buffer grow
+	static const char *payloads[] = {"{\"n\":123456789012345}", "{\"iat\":1700000000.1234,\"z\":0}"};
+	ctx.nontrivial = true;
+	for (const char *pay : payloads) {
+		std::string tok;
+		ref_make_token("{\"alg\":\"none\"}", pay, NULL, NULL, tok);
+		int via_libjwt = 0, alone = 0;
+		std::string how;
+		for (int64_t k = 1; k <= 80; k++) {
+			int st = run_in_fork([&]() {
+				jwt_checker_t *c = jwt_checker_new();
+				if (!c)
+					return;
+				jwt_checker_time_leeway(c, JWT_CLAIM_EXP, -1);
+				jwt_checker_time_leeway(c, JWT_CLAIM_NBF, -1);
+				Armed a(k);
+				jwt_checker_verify(c, tok.c_str());
+			});
+			ctx.count("oom:parser_probe_children");
+			if (!(WIFEXITED(st) && WEXITSTATUS(st) == 0)) {
+				via_libjwt++;
+				if (how.empty())
+					how = WIFSIGNALED(st) ? strf("signal %d at request %lld", WTERMSIG(st), (long long)k) : strf("exit status %d at request %lld", WEXITSTATUS(st), (long long)k);
+			}
+		}
+		for (int64_t k = 1; k <= 40; k++) {
+			int st = run_in_fork([&]() {
+				Armed a(k);
+				json_t *j = json_loads(pay, 0, NULL);
+				if (j)
+					json_decref(j);
+			});
+			ctx.count("oom:parser_probe_children");
+			if (!(WIFEXITED(st) && WEXITSTATUS(st) == 0))
+				alone++;
+		}
+		// (only what is stable goes into the event log: where exactly a corrupted heap gives way is not)
+		ctx.logf("PROBE payload=%s: a single failing request kills jwt_checker_verify: %d; kills json_loads alone: %d", pay, via_libjwt > 0, alone > 0);
+		ctx.sig(strf("C17|probe|%d|%d", via_libjwt > 0, alone > 0));
+		if (via_libjwt && alone) {
+			ctx.count("probe:jansson_alone_dies_under_oom_on_long_number_token");
+			ctx.violation("C17", "jansson-parse-crashes-under-oom", "verify",
+				      strf("jwt_checker_verify of an unsigned token with payload %s dies for %d of the 80 single failing requests tried (first: %s); json_loads of that payload alone, under the same "
+					   "allocator, dies for %d of 40",
+					   pay, via_libjwt, how.c_str(), alone));
+		} else if (via_libjwt)
+			ctx.violation("C17", "crash-under-oom", "verify:not-reproduced-with-jansson-alone",
+				      strf("jwt_checker_verify of an unsigned token with payload %s dies for %d single failing requests (first: %s) and jansson alone does not", pay, via_libjwt, how.c_str()));
+	}
+}
+
 static void oom_exec(Ctx &ctx)
 {
 	const Plan &plan = *ctx.plan;
+	if (plan.C("parser_probe")) {
+		jansson_probe(ctx);
+		return;
+	}
 	Scenario sc;
 	sc.plan = &plan;
 	sc.prov = (int)plan.C("prov");
